@@ -13,14 +13,14 @@ static verif::Result exec(const Script& sc, const verif::Config& cfg)
     verif::emit("cfg barrier " + std::to_string(n));
     {
         Barrier B(static_cast<size_t>(n));
-        verif::reg_name(&B.mtx, "mtx");
-        verif::reg_name(&B.cv, "cv");
-        verif::reg_name(&B.threshold_, "threshold");
-        verif::reg_name(&B.count_, "count");
-        verif::reg_name(&B.generation_, "generation");
-        verif::tap_add(&B.threshold_, sizeof(B.threshold_));
-        verif::tap_add(&B.count_, sizeof(B.count_));
-        verif::tap_add(&B.generation_, sizeof(B.generation_));
+        VERIF_NAME(B, mtx, "mtx");
+        VERIF_NAME(B, cv, "cv");
+        VERIF_NAME(B, threshold_, "threshold");
+        VERIF_NAME(B, count_, "count");
+        VERIF_NAME(B, generation_, "generation");
+        VERIF_TAP(B, threshold_);
+        VERIF_TAP(B, count_);
+        VERIF_TAP(B, generation_);
         std::vector<std::function<void()>> bodies;
         for (auto& ops : sc.threads) {
             bodies.push_back([&B, ops] {
